@@ -7,6 +7,7 @@ import (
 	"strings"
 	"testing"
 
+	"github.com/mmcloughlin/geohash"
 	"github.com/tidwall/tile38/verif/harness/ev"
 )
 
@@ -15,12 +16,19 @@ import (
 // and a 5-nearest query 110 m from one of the meridian points.
 func poleProbe(withHash bool) history {
 	h := history{Level: "server", Pool: "probe"}
+	south := -89.999996 // 0.45 m from the pole, not float32-representable
 	if withHash {
-		// geohash.Decode gives latitude -90.000000000000014 for this cell
-		h.Steps = append(h.Steps, step{Op: "set", ID: "h", Obj: &objSpec{[]string{"HASH", "h00000000"}}})
+		// the trigger is a decoded geohash instead: geohash.Decode returns
+		// latitude -90.000000000000014 for this cell on the meridian lon=1
+		south = -89.9999
+		hash := geohash.EncodeWithPrecision(-90, 1, 9)
+		if lat, _ := geohash.Decode(hash); lat >= -90 {
+			hash = "h00000000"
+		}
+		h.Steps = append(h.Steps, step{Op: "set", ID: "h", Obj: &objSpec{[]string{"HASH", hash}}})
 	}
 	for i := 0; i < 70; i++ {
-		h.Steps = append(h.Steps, step{Op: "set", ID: fmt.Sprintf("m%02d", i), Obj: &objSpec{[]string{"POINT", fs(-89.999996 + float64(i)*0.003), "1"}}})
+		h.Steps = append(h.Steps, step{Op: "set", ID: fmt.Sprintf("m%02d", i), Obj: &objSpec{[]string{"POINT", fs(south + float64(i)*0.003), "1"}}})
 	}
 	for i := 0; i < 70; i++ {
 		h.Steps = append(h.Steps, step{Op: "set", ID: fmt.Sprintf("f%02d", i), Obj: &objSpec{[]string{"POINT", "-89.85", fs(2 + float64(i)*0.01)}}})
